@@ -54,6 +54,14 @@ def plan(tier, seed):
         for part in range(parts):
             specs.append({"name": f"other-service-exh-{bi}-{part}", "kind": "by_exh", "scripts": [list(x) for x in tr],
                           "part": part, "parts": parts, "every": every, "budget_s": 200 if tier == "quick" else 1200})
+    # idle time (the event loop's clock is pushed forward between events): timers of the server and of the websockets
+    # library fire as they would after that much real time
+    IDLE = [((["config", "upload"], ["upload"]), 2, 1), ((["upload"], ["config", "upload"]), 2, 1),
+            ((["config"], [], ["config"]), 4, 24 if tier == "quick" else 1), (([], ["search"], ["upload"]), 4, 36 if tier == "quick" else 2)]
+    for ii, (tr, parts, every) in enumerate(IDLE):
+        for part in range(parts):
+            specs.append({"name": f"idle-exh-{ii}-{part}", "kind": "idle_exh", "scripts": [list(x) for x in tr],
+                          "part": part, "parts": parts, "every": every, "budget_s": 200 if tier == "quick" else 1200})
     for k in range(4 if tier == "quick" else 16):
         specs.append({"name": f"three-{k}", "kind": "three", "index": k, "of": 4 if tier == "quick" else 16,
                       "walks": 60 if tier == "quick" else 1500, "exhaustive1": tier == "thorough",
@@ -131,7 +139,7 @@ class Scheduler:
                 if gate.release_all():
                     await asyncio.sleep(SETTLE)
 
-    async def run(self, scripts, order, policy, bystander=None):
+    async def run(self, scripts, order, policy, bystander=None, warps=None):
         """order: list of connection indices; the k-th occurrence of j fires j's k-th event (open, requests.., close).
         bystander: None | "hold" | "close@k" - a connection on ANOTHER service id that is open (and served) before the
         schedule starts; "close@k" closes it just before event k, "hold" keeps it open to the end, where a second
@@ -154,7 +162,10 @@ class Scheduler:
         conns = [Conn(j, s) for j, s in enumerate(scripts)]
         self.t = 0
         case = {"scripts": [list(s) for s in scripts], "order": list(order), "gate_policy": policy,
-                "bystander": bystander}
+                "bystander": bystander, "warps": {str(k): v for k, v in (warps or {}).items()} or None}
+        loop = asyncio.get_running_loop()
+        if warps:
+            acc.count("schedules_with_idle_time")
         history = []
         pos = [0] * len(conns)
         max_open = 0
@@ -170,6 +181,13 @@ class Scheduler:
                     acc.note(f"bystander configuration not acknowledged: {str(ev)[:80]}")
                 history.append((0, "bystander-open+config"))
             for n_ev, j in enumerate(order):
+                if warps and n_ev in warps and hasattr(loop, "warp"):
+                    # idle time: the clock jumps, every timer due in the meantime fires now
+                    loop.warp(warps[n_ev])
+                    history.append((self.t, f"idle {warps[n_ev]}s"))
+                    acc.count("idle_seconds_inserted", int(warps[n_ev]))
+                    await self.settle(gate, policy)
+                    await asyncio.sleep(SETTLE)
                 if by is not None and by_close_at == n_ev:
                     await by.close()
                     history.append((self.t, "bystander-close"))
@@ -444,6 +462,23 @@ async def amain(spec, acc, ctx):
                     await retry_on_timeout(acc, lambda: sch.run(scripts, order, pol, f"close@{k}"))
                     n_runs += 1
         acc.count("other_service_close_points_enumerated", n_runs)
+    elif spec["kind"] == "idle_exh":
+        # idle time at every event boundary: one long pause (12 s) in two-connection schedules; two pauses (3 s + 3 s,
+        # 6 s + 2.6 s) in three-connection schedules where the second waiter arrives later than the first
+        scripts = spec["scripts"]
+        orders = interleavings([len(x) + 2 for x in scripts])[spec["part"]::spec["parts"]]
+        n_runs = 0
+        for order in orders:
+            plans = [{k: 12.0} for k in range(1, len(order))] if len(scripts) == 2 else \
+                [{k1: a, k2: b} for k1 in range(1, len(order)) for k2 in range(k1 + 1, len(order))
+                 for (a, b) in ((3.0, 3.0), (6.0, 2.6))][::spec.get("every", 1)]
+            for wp in plans:
+                if stop():
+                    acc.count("enumeration_incomplete")
+                    break
+                await retry_on_timeout(acc, lambda: sch.run(scripts, order, "immediate", None, wp))
+                n_runs += 1
+        acc.count("idle_time_placements_enumerated", n_runs)
     elif spec["kind"] == "three_exh":
         scripts = spec["scripts"]
         orders = interleavings([len(x) + 2 for x in scripts])[spec["part"]::spec["parts"]][::spec.get("every", 1)]
@@ -487,23 +522,33 @@ async def amain(spec, acc, ctx):
             bys = None
             if pol != "end" and w % 3 == 1:
                 bys = rng.choice(["hold", f"close@{rng.randrange(len(order))}"])
-            await retry_on_timeout(acc, lambda: sch.run(scripts, order, pol, bys))
+            warps = None
+            if w % 3 == 2:
+                # idle time between events: up to 18 s in all (below the 20 s keep-alive period of the websockets)
+                warps, total = {}, 0.0
+                for kk in sorted(rng.sample(range(1, len(order)), min(len(order) - 1, rng.randint(1, 3)))):
+                    sec = rng.choice([2.6, 3.5, 5.5, 6.0, 11.5, 12.0])
+                    if total + sec <= 18:
+                        warps[kk] = sec
+                        total += sec
+            await retry_on_timeout(acc, lambda: sch.run(scripts, order, pol, bys, warps))
             acc.count("three_conn_walks")
     await server.stop()
 
 
 def run_shard(spec, acc, ctx):
-    asyncio.run(amain(spec, acc, ctx))
+    wh.run_warped(lambda: amain(spec, acc, ctx))
 
 
 def replay(case, acc, ctx):
     async def go():
         wh.setup_env()
         server = await wh.Server().start()
+        warps = {int(k): v for k, v in (case.get("warps") or {}).items()} or None
         await Scheduler(acc, ctx, server, Fixture()).run(case["scripts"], case["order"], case["gate_policy"],
-                                                         case.get("bystander"))
+                                                         case.get("bystander"), warps)
         await server.stop()
-    asyncio.run(go())
+    wh.run_warped(go)
     acc.count("replayed")
 
 
@@ -545,6 +590,9 @@ def finish(m, tier, seed):
             "held_to_the_end": c.get("bystander.hold", 0), "closed_mid_schedule": c.get("bystander.close", 0),
             "newcomer_to_the_other_service_kept_waiting": c.get("bystander_waiter_probes", 0)},
         "other_service_close_points_enumerated": c.get("other_service_close_points_enumerated", 0),
+        "schedules_with_idle_time": c.get("schedules_with_idle_time", 0),
+        "idle_seconds_inserted": c.get("idle_seconds_inserted", 0),
+        "idle_time_placements_enumerated": c.get("idle_time_placements_enumerated", 0),
         "three_connection_walks": c.get("three_conn_walks", 0),
         "three_connection_interleavings_enumerated": c.get("three_conn_exhaustive_interleavings", 0),
     }
